@@ -48,7 +48,7 @@ def parse_line(line):
     for x in filter(None, parts[1][2:].split(",")):
         k, ty, ret, out = x.split(":")
         s, r = k.split(".")
-        calls.append((int(s), int(r), ty, int(ret), out))
+        calls.append((int(s), int(r), ty, int(ret), out))   # out may carry the marker "!content"
     jobs = {}
     for x in filter(None, parts[2][2:].split(",")):
         f = x.split(":")
@@ -112,7 +112,17 @@ def oracle(h, threshold):
                 admitted.setdefault((r, "payload"), i)
             payloads.add(txs[r]["pnum"])
         # --- calls
+        new_events = [(r2, ty2) for (r2, ty2), i2 in admitted.items() if i2 == i]
+        if kind in ("add", "wp") and status.startswith("ok"):
+            for (r2, ty2) in new_events:
+                for s2 in range(nsubs):
+                    fl = subs[s2]["filters"]
+                    if typed(fl) and sel(fl, txs[r2], ty2) and not any(c[0] == s2 and c[1] == r2 for c in calls):
+                        report("C14:committed-event-not-notified", f"{kind} committed the {ty2} event of ref {r2} but {subs[s2]['name']} was not notified after the commit", i)
         for (s, r, ty, ret, o) in calls:
+            if o.endswith("!content"):
+                o = o[:-len("!content")]
+                report("C14:delivered-event-without-its-content", f"subscriber {subs[s]['name']} got the {ty} event of ref {r} without its transaction/payload (retries={ret})", i)
             if r not in dag:
                 report("C14:delivered-but-not-admitted", f"subscriber {subs[s]['name']} called for ref {r} which is not on the DAG", i)
             if s < len(subs) and typed(subs[s]["filters"]):
@@ -133,6 +143,7 @@ def oracle(h, threshold):
                 called.add((s, r))
         # --- completion records: done calls whose job is gone, Finished from outside that removed a job
         for (s, r, ty, ret, o) in calls:
+            o = o.replace("!content", "")
             if o == "done" and (s, r) not in jobs:
                 completed.setdefault((s, r), i)
         if kind == "fin" and status == "ok" and (op["s"], op["ref"]) in prev_jobs and (op["s"], op["ref"]) not in jobs:
@@ -385,8 +396,9 @@ def start_oracle(ctx):
         ctx.oblige("start-harness-runs", False, "\n".join(l for l in log.split("\n") if "level=audit" not in l)[-1200:])
         return
     rows, bad, n_jobs, kinds = 0, [], 0, Counter()
+    wiring, cleanup_bad, n_cleanup = [], [], 0
     for l in ctx.read_lines(os.path.join(out, "start.out")):
-        m = re.match(r"round=(\d+) start=(.*?) unfinished=\[(.*?)\] attempted=\[(.*?)\] left=\[(.*?)\] missed=\[(.*?)\]$", l)
+        m = re.match(r"round=(\d+) start=(.*?) unfinished=\[(.*?)\] attempted=\[(.*?)\] left=\[(.*?)\] missed=\[(.*?)\] selected=\[(.*?)\] mustremain=\[(.*?)\](?: cleanup=(\S+)/(\S+)/(\S+) removed=\[(.*?)\])?$", l)
         if not m:
             continue
         rows += 1
@@ -398,6 +410,21 @@ def start_oracle(ctx):
         missed = sorted(k for k in unfinished if k not in attempted)
         if m.group(2) != "nil" or missed:
             bad.append((m.group(1), m.group(2), missed, l))
+        selected = set(x for x in m.group(7).split(",") if x)
+        mustremain = set(x for x in m.group(8).split(",") if x)
+        removed = dict(x.rsplit(":", 1) for x in (m.group(12) or "").split(",") if x)
+        # Network.Subscribe must hand persistency and the filter through: jobs exactly for selected events, nothing unfinished lost
+        lost = sorted(k for k in mustremain if k not in unfinished and k not in removed)
+        unselected = sorted(k for k in list(unfinished) + list(attempted) if k not in selected)
+        if lost or unselected:
+            wiring.append((m.group(1), lost, unselected, l))
+        if m.group(9):
+            n_cleanup += 1
+            target, prefix = m.group(9), m.group(10).replace("_", " ")
+            # only events of the named subscriber, at/over the threshold, whose error ("keeps failing") starts with the prefix
+            wrong = sorted(k for k, r in removed.items() if not (k.startswith(target + ".") and int(r) >= 10 and "keeps failing".startswith(prefix)))
+            if wrong or m.group(11) != "true":
+                cleanup_bad.append((m.group(1), target, prefix, wrong, l))
     ctx.oblige("start-harness-runs", rows > 0 and n_jobs > 0, f"{rows} rounds, {n_jobs} unfinished jobs")
     ctx.oblige("oracle:start:every-unfinished-job-attempted-by-Network.Start", not bad,
                "; ".join(f"round {r}: start={e} not attempted {ms}" for r, e, ms, _ in bad[:3]))
@@ -407,7 +434,21 @@ def start_oracle(ctx):
                       f"real Network.Start (round {r}, start={e}): unfinished jobs {ms} of persistent subscribers were not attempted after the restart",
                       "restart-does-not-resume-pending-jobs.txt",
                       "scenario of harness/inpkg/network/zz_verif_c14_test.go (VERIF_SEED=%s), failing round:\n%s\n" % (ctx.seed, line))
-    ctx.cov["start_leg"] = {"rounds": rows, "unfinished_jobs": n_jobs, "job_states": dict(kinds)}
+    ctx.oblige("oracle:start:Network.Subscribe-keeps-persistency-and-filter", not wiring,
+               "; ".join(f"round {r}: lost {lo} unselected {un}" for r, lo, un, _ in wiring[:3]))
+    if wiring:
+        r, lo, un, line = wiring[0]
+        ctx.violation("C14:subscription-wiring-loses-or-misroutes-events",
+                      f"real Network.Subscribe/WithPersistency/WithSelectionFilter (round {r}): unfinished events without a job {lo}; jobs/deliveries for events the filter rejects {un}",
+                      "subscription-wiring.txt", "scenario of harness/inpkg/network/zz_verif_c14_test.go (VERIF_SEED=%s), failing round:\n%s\n" % (ctx.seed, line))
+    ctx.oblige("oracle:start:CleanupSubscriberEvents-removes-only-the-named-subscribers-matching-failed-events", not cleanup_bad,
+               "; ".join(f"round {r}: cleanup({t},{p!r}) wrongly removed {w}" for r, t, p, w, _ in cleanup_bad[:3]))
+    if cleanup_bad:
+        r, t, p, w, line = cleanup_bad[0]
+        ctx.violation("C14:cleanup-removes-events-it-should-keep",
+                      f"real Network.CleanupSubscriberEvents({t!r}, {p!r}) (round {r}) removed {w}: undelivered events vanished instead of staying visible as failed",
+                      "cleanup-removes-too-much.txt", "scenario of harness/inpkg/network/zz_verif_c14_test.go (VERIF_SEED=%s), failing round:\n%s\n" % (ctx.seed, line))
+    ctx.cov["start_leg"] = {"rounds": rows, "unfinished_jobs": n_jobs, "job_states": dict(kinds), "cleanup_calls": n_cleanup}
 
 
 def shrink(ctx, binary, h, upto, sig, threshold):
